@@ -1,5 +1,16 @@
 /-
-  Executable property predicates evaluated on implementation traces.
+  Executable property predicates evaluated on *implementation* traces.
+
+  The monitor keeps a reference picture of every session built only from what the protocol lets an
+  observer know (successful responses, requests, departures) and judges each event of the trace against
+  the property statements:
+    C02/C13/C14/C16  who must receive which relay, exactly once, and who must not;
+    C01/C06/C12/C16  every state handed out (session state, module states, list responses) equals the
+                     reference picture;
+    C03              nothing is delivered outside the actor's session(s);
+    C04              every request with a request id is answered exactly once, to the requester only;
+    C05              owner-only guards; C07 registry = non-empty sessions, gauge; C10 freshness of ids.
+  The monitors never consult the Lean model `step`.
 -/
 import Hagall.Spec.Trace
 namespace Hagall.Spec
@@ -12,6 +23,418 @@ structure Violation where
   detail : String
 deriving Repr, Inhabited
 
-def runMonitors (_cfg : Cfg) (_tr : List IStep) : List Violation := []
+/-- reference picture of one session -/
+structure MSess where
+  sid : Nat
+  uuid : Nat
+  members : List (Nat × Nat) := []     -- (pid, conn)
+  ents : List Entity := []
+  comps : List Comp := []
+  types : List (Nat × String) := []
+  subs : List (Nat × Nat) := []
+  actions : List Action := []
+  assets : List Asset := []
+  pidsEver : List Nat := []
+  eidsEver : List Nat := []
+  assetIdsEver : List Nat := []
+deriving Repr, Inhabited
+
+structure MState where
+  cfg : Cfg
+  sessions : List MSess := []
+  ev : Nat := 0
+  viol : Array Violation := #[]
+  uuidsEver : List Nat := []
+deriving Inhabited
+
+def flat (s : String) : String := s.replace "\n" " "
+
+def MState.flag (m : MState) (v : Violation) : MState := { m with viol := m.viol.push v }
+def MState.bad (m : MState) (prop cause detail : String) : MState := m.flag ⟨prop, cause, m.ev, detail⟩
+
+def MState.whereIs (m : MState) (c : Nat) : Option (MSess × Nat) :=
+  m.sessions.findSome? fun s => (s.members.find? (·.2 == c)).map fun p => (s, p.1)
+
+def MState.put (m : MState) (s : MSess) : MState :=
+  if m.sessions.any (·.uuid == s.uuid) then
+    { m with sessions := m.sessions.map fun x => if x.uuid == s.uuid then s else x }
+  else { m with sessions := m.sessions ++ [s] }
+
+def keep (cfg : Cfg) (o : Out) : Bool :=
+  match o.flagClass with
+  | some f => !cfg.flags.contains f
+  | none => true
+
+/-- expected relay of `msg` to every member of `s` but `pid` -/
+def MSess.relay (s : MSess) (pid : Nat) (msg : Out) : List Delivery :=
+  (s.members.filter (·.1 != pid)).map fun p => (p.2, msg)
+
+def sameMultiset (a b : List Out) : Bool :=
+  a.length == b.length && a.all (fun x => (a.filter (·.sameAs x)).length == (b.filter (·.sameAs x)).length)
+
+/-- compare what the other connections received with what the property says they must receive
+    (exactly these, exactly once each, nobody else) -/
+def MState.checkOthers (m : MState) (c : Nat) (ds expected : List Delivery) (props : List String) (cause : String) : MState :=
+  let actual := ds.filter (·.1 != c)
+  let expected := expected.filter fun d => keep m.cfg d.2 && d.1 != c
+  let conns := ((actual ++ expected).map (·.1)).eraseDups
+  match conns.find? fun k => !sameMultiset (inboxOf k actual) (inboxOf k expected) with
+  | none => m
+  | some k =>
+    let det := (flat s!"conn {k}: expected {reprStr (inboxOf k expected)} got {reprStr (inboxOf k actual)}")
+    props.foldl (fun m p => m.bad p cause det) m
+
+def rids (o : Out) : Option Nat :=
+  match o with
+  | .error r _ | .pingResp r | .joinResp r .. | .entityAddResp r _ | .entityDeleteResp r | .typeAddResp r _
+  | .typeNameResp r _ | .typeIdResp r _ | .compAddResp r | .compDeleteResp r | .compListResp r _
+  | .subscribeResp r | .unsubscribeResp r | .receiptResp r | .actionResp r | .assetAddResp r _
+  | .groundPlaneResp r | .regionResp r | .debugInfoResp r | .latencyResp r .. => some r
+  | _ => none
+
+def MSess.findEnt (s : MSess) (eid : Nat) : Option Entity := s.ents.find? (·.id == eid)
+def MSess.hasComp (s : MSess) (tid eid : Nat) : Bool := s.comps.any fun c => c.tid == tid && c.eid == eid
+def MSess.typeReg (s : MSess) (tid : Nat) : Bool := s.types.any (·.1 == tid)
+def MSess.subsOf (s : MSess) (tid : Nat) : List Nat := (s.subs.filter (·.1 == tid)).map (·.2)
+
+def MSess.dropEntity (s : MSess) (eid : Nat) : MSess :=
+  { s with ents := s.ents.filter (·.id != eid), comps := s.comps.filter (·.eid != eid),
+           actions := s.actions.filter (·.eid != eid), assets := s.assets.filter (·.eid != eid) }
+
+/-- a departure of connection `c` (participant `pid` of `s`): what the others must be told, and the
+    reference picture afterwards -/
+def MState.depart (m : MState) (s : MSess) (pid : Nat) : MState × List Delivery :=
+  let dead := s.ents.filter fun e => e.owner == pid && !e.persist
+  let s1 := dead.foldl (fun s e => s.dropEntity e.id) s
+  -- modules only clean up when loaded
+  let s1 := { s1 with actions := if m.cfg.vikja then s1.actions else s.actions,
+                      assets := if m.cfg.odal then s1.assets else s.assets,
+                      subs := s.subs.filter (·.2 != pid) }
+  let exp := (dead.flatMap fun e => s.relay pid (.entityDeleteBcast none e.id)) ++ s.relay pid (.leaveBcast pid)
+  let s2 := { s1 with members := s.members.filter (·.1 != pid) }
+  let m := if s2.members.isEmpty then { m with sessions := m.sessions.filter (·.uuid != s.uuid) } else m.put s2
+  (m, exp)
+
+def setAction (l : List Action) (a : Action) : List Action :=
+  if l.any (fun x => x.eid == a.eid && x.name == a.name) then l.map fun x => if x.eid == a.eid && x.name == a.name then a else x
+  else l ++ [a]
+
+def setAsset (l : List Asset) (a : Asset) : List Asset :=
+  if l.any (·.eid == a.eid) then l.map fun x => if x.eid == a.eid then a else x else l ++ [a]
+
+def answerCode (own : List Out) (rid : Nat) : Option Nat :=
+  own.findSome? fun o => match o with | .error r code => if r == rid then some code else none | _ => none
+
+/-- the requester's answer must be the given error code (C04) -/
+def MState.expectError (m : MState) (own : List Out) (rid code : Nat) (props : List String) (cause : String) : MState :=
+  if own.any (fun o => o == .error rid code) then m
+  else props.foldl (fun m p => m.bad p cause (flat s!"expected error {code} for request {rid}, got {reprStr own}")) m
+
+/-- the monitor step for a handled request -/
+def MState.onRequest (m : MState) (c : Nat) (r : Req) (ds : List Delivery) (outcome : Outcome) : MState :=
+  let own := inboxOf c ds
+  let cfg := m.cfg
+  -- C04: exactly one answer carrying the request id, to the requester only
+  let reqRid : Option Nat := match r with
+    | .ping rid | .join rid .. | .entityAdd rid .. | .entityDelete rid .. | .typeAdd rid _ | .typeGetName rid _
+    | .typeGetId rid _ | .compAdd rid .. | .compDelete rid .. | .compList rid _ | .subscribe rid _
+    | .unsubscribe rid _ | .receipt rid .. => some rid
+    | .action rid .. => if cfg.vikja then some rid else none
+    | .assetAdd rid .. => if cfg.odal then some rid else none
+    | .groundPlane rid _ | .region rid _ | .debugInfo rid => if cfg.dagaz then some rid else none
+    | _ => none
+  let joined := (m.whereIs c).isSome
+  let m := match reqRid with
+    | none => m
+    | some rid =>
+      let needsSession := match r with | .ping .. | .join .. | .receipt .. => false | _ => true
+      let mine := (own.filter fun o => rids o == some rid).length
+      let theirs := (ds.filter fun (d : Delivery) => d.1 != c && (rids d.2).isSome).length
+      let m := if theirs != 0 then m.bad "C04" "answer-to-third-party" (flat s!"{reprStr (ds.filter fun (d : Delivery) => d.1 != c && (rids d.2).isSome)}") else m
+      if (joined || !needsSession) && mine != 1 && outcome == Outcome.ok then
+        m.bad "C04" (if mine == 0 then "unanswered-request" else "answered-twice") (flat s!"request {reprStr r} answers {reprStr own}")
+      else if !joined && needsSession && mine == 0 && outcome == Outcome.ok && (match r with | .action .. | .assetAdd .. | .groundPlane .. | .region .. | .debugInfo .. => false | _ => true) then
+        -- a core request that needs a session, from a connection in none: error answer or the connection ends
+        m.bad "C04" "session-less-request-executed" (flat s!"request {reprStr r} outcome ok, no answer")
+      else m
+  match m.whereIs c, r with
+  /- ------------------------------------------------------------ join -/
+  | me, .join rid ots _target =>
+    match own.findSome? fun o => match o with | .joinResp r' sid uuid pid => if r' == rid then some (sid, uuid, pid) else none | _ => none with
+    | some (sid, uuid, pid) =>
+      -- leave the previous session first
+      let (m, expLeave) := match me with
+        | some (s0, p0) => m.depart s0 p0
+        | none => (m, [])
+      let (m, s) := match m.sessions.find? (·.uuid == uuid) with
+        | some s =>
+          let m := if s.sid != sid then m.bad "C07" "uuid-under-two-ids" s!"uuid {uuid} ids {s.sid} {sid}" else m
+          (m, s)
+        | none =>
+          let m := if m.uuidsEver.contains uuid then m.bad "C07" "ended-session-rejoined" s!"uuid {uuid} was ended" else m
+          let m := if m.sessions.any (·.sid == sid) then m.bad "C10" "session-id-shared" s!"id {sid} is live under another uuid" else m
+          ({ m with uuidsEver := m.uuidsEver ++ [uuid] }, ({ sid, uuid } : MSess))
+      let m := if s.pidsEver.contains pid then
+          (m.bad "C10" "participant-id-reissued" s!"session {uuid} pid {pid}").bad "C05" "participant-id-reissued" s!"session {uuid} pid {pid}"
+        else m
+      let s' := { s with members := s.members ++ [(pid, c)], pidsEver := s.pidsEver ++ [pid] }
+      -- the state handed to the newcomer must be the reference picture (C01; C06 for survivors; C12; C16)
+      let m := match own.find? fun o => match o with | .sessionState .. => true | _ => false with
+        | some (.sessionState ps es cs) =>
+          let m := if !ps.isPerm (s'.members.map Prod.fst) then
+              (m.bad "C01" "newcomer-participants" s!"handed {ps} reference {s'.members.map Prod.fst}").bad "C06" "newcomer-participants" s!"handed {ps} reference {s'.members.map Prod.fst}"
+            else m
+          let m := if !es.isPerm (s'.ents.map Entity.view) then
+              let d := (flat s!"handed {reprStr es} reference {reprStr (s'.ents.map Entity.view)}")
+              ((m.bad "C01" "newcomer-entities" d).bad "C06" "newcomer-entities" d).bad "C11" "newcomer-entities" d
+            else m
+          if !cs.isPerm s'.comps then
+            let d := (flat s!"handed {reprStr cs} reference {reprStr s'.comps}")
+            ((m.bad "C01" "newcomer-components" d).bad "C12" "newcomer-components" d).bad "C06" "newcomer-components" d
+          else m
+        | _ => if keep cfg (.sessionState [] [] []) then m.bad "C01" "no-session-state" "successful join without session state" else m
+      let m := if cfg.vikja then
+          match own.find? fun o => match o with | .vikjaState .. => true | _ => false with
+          | some (.vikjaState acts) =>
+            if !acts.isPerm s'.actions then
+              let d := (flat s!"handed {reprStr acts} reference {reprStr s'.actions}")
+              ((m.bad "C16" "newcomer-actions" d).bad "C01" "newcomer-actions" d).bad "C06" "newcomer-actions" d
+            else m
+          | _ => m.bad "C16" "no-vikja-state" "successful join without vikja state"
+        else m
+      let m := if cfg.odal then
+          match own.find? fun o => match o with | .odalState .. => true | _ => false with
+          | some (.odalState as) =>
+            if !as.isPerm s'.assets then
+              let d := (flat s!"handed {reprStr as} reference {reprStr s'.assets}")
+              ((m.bad "C16" "newcomer-assets" d).bad "C01" "newcomer-assets" d).bad "C06" "newcomer-assets" d
+            else m
+          | _ => m.bad "C16" "no-odal-state" "successful join without odal state"
+        else m
+      let m := m.put s'
+      m.checkOthers c ds (expLeave ++ s'.relay pid (.joinBcast ots pid)) ["C02", "C06"] "join-relay"
+    | none =>
+      -- a refused join changes nothing: nobody else hears of it, the requester stays where it was
+      let m := match me with
+        | some (s0, p0) =>
+          if (ds.any fun d => d.1 != c && (d.2 == Out.leaveBcast p0)) then
+            (m.depart s0 p0).1.bad "C04" "refused-join-left-session"
+              (flat s!"join {reprStr r} refused but the participant left session {s0.uuid}")
+          else m
+        | none => m
+      m.checkOthers c ds [] ["C02", "C04"] "refused-join-relayed"
+  /- ------------------------------------------------------------ not joined -/
+  | none, _ =>
+    -- nothing a connection that is in no session sends may reach anybody (C03) or change anything
+    if (ds.filter (·.1 != c)).isEmpty then m
+    else (m.bad "C03" "delivery-from-outsider" (flat s!"{reprStr (ds.filter (·.1 != c))}")).bad "C04" "session-less-request-executed" (flat s!"{reprStr r}")
+  /- ------------------------------------------------------------ joined -/
+  | some (s, pid), .entityAdd rid ots persist flag pose =>
+    match own.findSome? fun o => match o with | .entityAddResp r' eid => if r' == rid then some eid else none | _ => none with
+    | some eid =>
+      let m := if s.eidsEver.contains eid then m.bad "C10" "entity-id-reissued" s!"session {s.uuid} entity {eid}" else m
+      let e : Entity := ⟨eid, pid, persist, flag, pose.getD 0⟩
+      let s' := { s with ents := s.ents ++ [e], eidsEver := s.eidsEver ++ [eid] }
+      (m.put s').checkOthers c ds (s.relay pid (.entityAddBcast ots e.view)) ["C02"] "entity-add-relay"
+    | none => m.checkOthers c ds [] ["C02"] "refused-request-relayed"
+  | some (s, pid), .entityDelete rid ots eid =>
+    let accepted := own.any (· == .entityDeleteResp rid)
+    match s.findEnt eid with
+    | none =>
+      let m := if accepted then m.bad "C04" "delete-of-unknown-accepted" s!"entity {eid}" else m.expectError own rid ecNotFound ["C04"] "wrong-answer"
+      m.checkOthers c ds [] ["C02", "C05"] "refused-request-relayed"
+    | some e =>
+      if e.owner != pid then
+        let m := if accepted then m.bad "C05" "non-owner-delete-accepted" s!"entity {eid} owner {e.owner} requester {pid}"
+                 else m.expectError own rid ecUnauthorized ["C05", "C04"] "wrong-answer"
+        m.checkOthers c ds [] ["C02", "C05"] "refused-request-relayed"
+      else if accepted then
+        (m.put (s.dropEntity eid)).checkOthers c ds (s.relay pid (.entityDeleteBcast (some ots) eid)) ["C02"] "entity-delete-relay"
+      else m.bad "C04" "owner-delete-refused" (flat s!"entity {eid} answer {reprStr own}")
+  | some (s, pid), .updatePose ots eid pose =>
+    match s.findEnt eid, pose with
+    | some e, some v =>
+      if e.owner == pid then
+        let s' := { s with ents := s.ents.map fun x => if x.id == eid then { x with pose := v } else x }
+        (m.put s').checkOthers c ds (s.relay pid (.poseBcast ots eid v)) ["C02", "C11"] "pose-relay"
+      else (m.checkOthers c ds [] ["C05", "C11"] "foreign-pose-update-relayed")
+    | _, _ => m.checkOthers c ds [] ["C05", "C11"] "dropped-pose-update-relayed"
+  | some (s, pid), .custom ots pids body =>
+    if body.length > 10240 then
+      let m := if own.any (fun o => match o with | .error _ 413 => true | _ => false) then m else m.bad "C14" "too-large-not-refused" s!"{body.length} bytes"
+      m.checkOthers c ds [] ["C14", "C02"] "too-large-delivered"
+    else
+      let msg := Out.customBcast ots pid body
+      let targets := if pids.isEmpty then s.members.filter (·.1 != pid)
+                     else s.members.filter fun p => p.1 != pid && pids.contains p.1
+      let m := if own.any (fun o => match o with | .error _ 413 => true | _ => false) then m.bad "C14" "within-limit-refused" s!"{body.length} bytes" else m
+      m.checkOthers c ds (targets.map fun p => (p.2, msg)) (if pids.isEmpty then ["C14", "C02"] else ["C14"]) "custom-delivery"
+  | some (s, _pid), .typeAdd rid name =>
+    if name == "" then m.expectError own rid ecBadRequest ["C04"] "wrong-answer" else
+    match own.findSome? fun o => match o with | .typeAddResp r' t => if r' == rid then some t else none | _ => none with
+    | some t =>
+      match s.types.find? (·.2 == name) with
+      | some (t0, _) => if t0 != t then (m.bad "C12" "type-registration-not-idempotent" s!"{name}: {t0} then {t}").bad "C10" "type-name-two-ids" s!"{name}: {t0} then {t}" else m
+      | none =>
+        let m := if s.types.any (·.1 == t) then (m.bad "C10" "type-id-two-names" s!"id {t}").bad "C12" "type-id-two-names" s!"id {t}" else m
+        m.put { s with types := s.types ++ [(t, name)] }
+    | none => m
+  | some (s, _pid), .typeGetName rid tid =>
+    if tid == 0 then m.expectError own rid ecBadRequest ["C04"] "wrong-answer" else
+    match s.types.find? (·.1 == tid) with
+    | some (_, n) => if own.any (· == .typeNameResp rid n) then m else (m.bad "C12" "type-name-lookup" s!"id {tid} expected {n} got {reprStr own}").bad "C10" "type-name-lookup" s!"id {tid}"
+    | none => m.expectError own rid ecNotFound ["C12", "C04"] "wrong-answer"
+  | some (s, _pid), .typeGetId rid name =>
+    if name == "" then m.expectError own rid ecBadRequest ["C04"] "wrong-answer" else
+    match s.types.find? (·.2 == name) with
+    | some (t, _) => if own.any (· == .typeIdResp rid t) then m else (m.bad "C12" "type-id-lookup" s!"name {name} expected {t} got {reprStr own}").bad "C10" "type-id-lookup" s!"name {name}"
+    | none => m.expectError own rid ecNotFound ["C12", "C04"] "wrong-answer"
+  | some (s, pid), .compAdd rid ots tid eid data =>
+    let accepted := own.any (· == .compAddResp rid)
+    if tid == 0 || eid == 0 then (m.expectError own rid ecBadRequest ["C04"] "wrong-answer").checkOthers c ds [] ["C13"] "refused-request-relayed" else
+    let okToAdd := (s.findEnt eid).isSome && s.typeReg tid && !s.hasComp tid eid
+    if accepted && !okToAdd then
+      m.bad "C12" "component-add-accepted" s!"type {tid} entity {eid}: entity exists {(s.findEnt eid).isSome} type registered {s.typeReg tid} present {s.hasComp tid eid}"
+    else if !accepted && okToAdd then m.bad "C12" "component-add-refused" (flat s!"type {tid} entity {eid} answer {reprStr own}")
+    else if accepted then
+      let cmp : Comp := ⟨tid, eid, data⟩
+      let exp := if (s.subsOf tid).isEmpty then [] else s.relay pid (.compAddBcast ots cmp)
+      (m.put { s with comps := s.comps ++ [cmp] }).checkOthers c ds exp ["C13"] "component-add-notify"
+    else
+      let code := if (s.findEnt eid).isNone || !s.typeReg tid then ecNotFound else ecConflict
+      (m.expectError own rid code ["C12", "C04"] "wrong-answer").checkOthers c ds [] ["C13"] "refused-request-relayed"
+  | some (s, pid), .compDelete rid ots tid eid =>
+    let accepted := own.any (· == .compDeleteResp rid)
+    if tid == 0 || eid == 0 then (m.expectError own rid ecBadRequest ["C04"] "wrong-answer").checkOthers c ds [] ["C13"] "refused-request-relayed" else
+    let present := (s.findEnt eid).isSome && s.hasComp tid eid
+    if accepted && !present then (m.bad "C12" "absent-component-deleted" s!"type {tid} entity {eid}").checkOthers c ds [] ["C13", "C12"] "absent-component-delete-relayed"
+    else if !accepted && present then m.bad "C12" "component-delete-refused" (flat s!"type {tid} entity {eid} answer {reprStr own}")
+    else if accepted then
+      let exp := if (s.subsOf tid).isEmpty then [] else s.relay pid (.compDeleteBcast ots tid eid)
+      (m.put { s with comps := s.comps.filter fun x => !(x.tid == tid && x.eid == eid) }).checkOthers c ds exp ["C13"] "component-delete-notify"
+    else (m.expectError own rid ecNotFound ["C12", "C04"] "wrong-answer").checkOthers c ds [] ["C13"] "refused-request-relayed"
+  | some (s, pid), .compUpdate ots tid eid data =>
+    if tid != 0 && eid != 0 && (s.findEnt eid).isSome && s.hasComp tid eid then
+      let cmp : Comp := ⟨tid, eid, data⟩
+      let targets := s.members.filter fun p => p.1 != pid && (s.subsOf tid).contains p.1
+      (m.put { s with comps := s.comps.map fun x => if x.tid == tid && x.eid == eid then cmp else x }).checkOthers c ds
+        (targets.map fun p => (p.2, Out.compUpdateBcast ots cmp)) ["C13"] "component-update-notify"
+    else m.checkOthers c ds [] ["C12", "C13"] "absent-component-update-relayed"
+  | some (s, _pid), .compList rid tid =>
+    if tid == 0 then m.expectError own rid ecBadRequest ["C04"] "wrong-answer" else
+    match own.findSome? fun o => match o with | .compListResp r' l => if r' == rid then some l else none | _ => none with
+    | some l => if l.isPerm (s.comps.filter (·.tid == tid)) then m
+                else (m.bad "C12" "list-mismatch" (flat s!"type {tid}: listed {reprStr l} reference {reprStr (s.comps.filter (·.tid == tid))}")).bad "C01" "list-mismatch" s!"type {tid}"
+    | none => m
+  | some (s, pid), .subscribe rid tid =>
+    if tid == 0 then m.expectError own rid ecBadRequest ["C04"] "wrong-answer" else
+    if own.any (· == .subscribeResp rid) then
+      if s.typeReg tid then m.put { s with subs := if s.subs.contains (tid, pid) then s.subs else s.subs ++ [(tid, pid)] }
+      else m.bad "C13" "subscribe-unregistered-accepted" s!"type {tid}"
+    else if s.typeReg tid then m.bad "C13" "subscribe-refused" (flat s!"type {tid} answer {reprStr own}")
+    else m.expectError own rid ecNotFound ["C13", "C04"] "wrong-answer"
+  | some (s, pid), .unsubscribe rid tid =>
+    if tid == 0 then m.expectError own rid ecBadRequest ["C04"] "wrong-answer" else
+    m.put { s with subs := s.subs.filter (· != (tid, pid)) }
+  | some (s, pid), .action rid ots act =>
+    if !cfg.vikja then m.checkOthers c ds [] ["C16"] "action-without-module" else
+    let accepted := own.any (· == .actionResp rid)
+    match act with
+    | none => (m.expectError own rid ecBadRequest ["C16", "C04"] "wrong-answer").checkOthers c ds [] ["C02", "C16"] "refused-request-relayed"
+    | some a =>
+      let older := match s.actions.find? (fun x => x.eid == a.eid && x.name == a.name), a.ts with
+        | some old, some t => (match old.ts with | some t0 => t.before t0 | none => false)
+        | _, _ => false
+      let ok := a.name != "" && a.ts.isSome && (s.findEnt a.eid).isSome && !older
+      if accepted && !ok then (m.bad "C16" (if older then "older-action-accepted" else "invalid-action-accepted") (flat s!"{reprStr a}"))
+      else if !accepted && ok then m.bad "C16" "newer-action-refused" (flat s!"{reprStr a} answer {reprStr own}")
+      else if accepted then
+        (m.put { s with actions := setAction s.actions a }).checkOthers c ds (s.relay pid (.actionBcast ots a)) ["C02", "C16"] "action-relay"
+      else (m.expectError own rid ecBadRequest ["C16", "C04"] "wrong-answer").checkOthers c ds [] ["C02", "C16"] "refused-request-relayed"
+  | some (s, pid), .assetAdd rid ots assetId eid =>
+    if !cfg.odal then m.checkOthers c ds [] ["C16"] "asset-without-module" else
+    match own.findSome? fun o => match o with | .assetAddResp r' aid => if r' == rid then some aid else none | _ => none with
+    | some aid =>
+      let m := if s.assetIdsEver.contains aid then (m.bad "C10" "asset-id-reissued" s!"asset instance {aid}").bad "C16" "asset-id-reissued" s!"asset instance {aid}" else m
+      match s.findEnt eid with
+      | none => m.bad "C16" "asset-on-unknown-entity" s!"entity {eid}"
+      | some e =>
+        let m := if e.owner != pid then m.bad "C05" "non-owner-asset-accepted" s!"entity {eid} owner {e.owner} requester {pid}" else m
+        let m := if assetId == "" then m.bad "C16" "empty-asset-accepted" "" else m
+        let a : Asset := ⟨aid, assetId, pid, eid⟩
+        (m.put { s with assets := setAsset s.assets a, assetIdsEver := s.assetIdsEver ++ [aid] }).checkOthers c ds
+          (s.relay pid (.assetAddBcast ots a)) ["C02", "C16"] "asset-relay"
+    | none =>
+      let m := if assetId == "" then m.expectError own rid ecBadRequest ["C16", "C04"] "wrong-answer"
+        else match s.findEnt eid with
+          | none => m.expectError own rid ecNotFound ["C16", "C04"] "wrong-answer"
+          | some e => if e.owner != pid then m.expectError own rid ecUnauthorized ["C05", "C04"] "wrong-answer"
+                      else m.bad "C16" "asset-add-refused" (flat s!"entity {eid} answer {reprStr own}")
+      m.checkOthers c ds [] ["C02", "C05", "C16"] "refused-request-relayed"
+  | some _, _ =>
+    -- ping, latency, receipt, dagaz, unknown: nothing may reach the other members
+    m.checkOthers c ds [] ["C03"] "unexpected-relay"
+
+/-- after the event: connections that ended (handler error, panic) have left; registry line (C07) -/
+def MState.onEnd (m : MState) (c : Nat) (ds : List Delivery) (leftBy : String) : MState :=
+  match m.whereIs c with
+  | none => m
+  | some (s, pid) =>
+    let (m', exp) := m.depart s pid
+    m'.checkOthers c ds exp ["C06", "C02"] leftBy
+
+def sortNat (l : List Nat) : List Nat := (l.toArray.qsort (· < ·)).toList
+
+def MState.registry (m : MState) (st : IStep) : MState :=
+  let live := sortNat (m.sessions.map (·.sid))
+  let m := if live != st.sessions then m.bad "C07" "registry-mismatch" s!"registered {st.sessions}, sessions with members {live}" else m
+  if st.gauge != (st.sessions.length : Int) then m.bad "C07" "gauge-mismatch" s!"gauge {st.gauge}, registered {st.sessions.length}" else m
+
+/-- C03 frame: everything delivered during an event of connection `c` goes to `c` or to a member of a
+    session `c` belonged to before or after the event -/
+def frameCheck (before after : MState) (c : Nat) (ds : List Delivery) : Option String :=
+  let allowed (k : Nat) : Bool :=
+    k == c ||
+    (match before.whereIs c with | some (s, _) => s.members.any (·.2 == k) | none => false) ||
+    (match after.whereIs c with | some (s, _) => s.members.any (·.2 == k) | none => false)
+  match ds.find? fun d => !allowed d.1 with
+  | some d => some ((flat s!"delivery to connection {d.1} outside the actor's session: {reprStr d.2}"))
+  | none => none
+
+def MState.step (m : MState) (st : IStep) : MState :=
+  let m0 := m
+  let m := match st.ev with
+    | .handle c (some r) _ =>
+      let outcome := st.outcome
+      -- the deliveries of a handler error include the departure's
+      match outcome with
+      | .ok => m.onRequest c r st.ds .ok
+      | .connError =>
+        -- a refused request must not have been executed; then the connection leaves through the normal path
+        let m1 := match m.whereIs c, r with
+          | some _, .join .. => m.onRequest c r st.ds .connError
+          | _, _ => m
+        m1.onEnd c st.ds "error-departure"
+      | .panic site => m.bad "C08" "handler-panic" (flat s!"{site} on {reprStr r}")
+    | .handle _ none _ => if st.ds.isEmpty then m else m.bad "C03" "delivery-without-cause" (flat s!"{reprStr st.ds}")
+    | .disconnect c => m.onEnd c st.ds "disconnect-departure"
+    | .recv c _ =>
+      match st.outcome with
+      | .ok => if st.ds.isEmpty then m else m.bad "C11" "delivery-on-receive" (flat s!"{reprStr st.ds}")
+      | _ => m.onEnd c st.ds "error-departure"
+    | .connect _ | .tick _ | .drain => if st.ds.isEmpty then m else m.bad "C03" "delivery-without-cause" (flat s!"{reprStr st.ds}")
+  let m := match st.ev with
+    | .handle c _ _ | .disconnect c | .recv c _ =>
+      match frameCheck m0 m c st.ds with
+      | some d => m.bad "C03" "delivery-outside-session" d
+      | none => m
+    | _ => m
+  let m := m.registry st
+  { m with ev := m.ev + 1 }
+
+def runMonitors (cfg : Cfg) (tr : List IStep) : List Violation :=
+  let m := tr.foldl MState.step ({ cfg } : MState)
+  -- one report per (property, cause)
+  m.viol.toList.foldl (fun acc v => if acc.any (fun w => w.prop == v.prop && w.cause == v.cause) then acc else acc ++ [v]) []
 
 end Hagall.Spec
